@@ -140,6 +140,31 @@ func c10Run(w *W) {
 			}
 		})
 	}
+	// waiters that do not wait for a Start to return: their Wait may land
+	// before, inside or after Start. Before the start it reports
+	// ErrServiceNotStarted; any other outcome is a real Wait and is held to
+	// the same clauses as the others.
+	nEarly := simrt.Choose(3)
+	var earlyWaits []*waitRec
+	for i := 0; i < nEarly; i++ {
+		wr := &waitRec{}
+		earlyWaits = append(earlyWaits, wr)
+		at := simrt.Choose(60)
+		simrt.Spawn("early-waiter", func() {
+			simrt.WaitStep(at)
+			for try := 0; try < 3; try++ {
+				wr.invoke = h.Tick()
+				wr.err = s.Wait()
+				wr.runningAfter = s.Running()
+				wr.ret = h.Tick()
+				if !errors.Is(wr.err, srv.ErrServiceNotStarted) {
+					break
+				}
+				simrt.Yield()
+			}
+			wr.done = true
+		})
+	}
 	switch term {
 	case 1:
 		simrt.Spawn("fault:close", func() {
@@ -246,13 +271,28 @@ func c10Run(w *W) {
 	if len(cleans) == 1 && cleans[0].exit > lastPhase {
 		lastPhase = cleans[0].exit
 	}
+	okStartRet := int64(0)
+	for _, sr := range starts {
+		if sr.err == nil {
+			okStartRet = sr.ret
+		}
+	}
+	for _, wr := range earlyWaits {
+		if wr.done && errors.Is(wr.err, srv.ErrServiceNotStarted) {
+			if okStartRet != 0 && wr.invoke > okStartRet {
+				w.Violate("wait-not-started-after-start", sig("wait-not-started-after-start"), "a Wait invoked at %d, after Start had returned nil at %d, reported ErrServiceNotStarted", wr.invoke, okStartRet)
+			}
+			continue // it never saw the service started: nothing else to hold it to
+		}
+		waits = append(waits, wr)
+	}
 	for i, wr := range waits {
 		if !wr.done {
 			w.Violate("wait-blocked", sig("wait-blocked"), "Wait call %d has not returned at quiescence although every phase finished", i)
 			continue
 		}
 		if wr.ret < lastPhase {
-			w.Violate("wait-returned-early", sig("wait-returned-early"), "a Wait invoked at %d (after a successful Start) returned at %d before the last phase finished at %d", wr.invoke, wr.ret, lastPhase)
+			w.Violate("wait-returned-early", sig("wait-returned-early"), "a Wait invoked at %d that did not report ErrServiceNotStarted returned at %d before the last phase finished at %d", wr.invoke, wr.ret, lastPhase)
 		}
 		if wr.runningAfter {
 			w.Violate("running-after-wait", sig("running-after-wait"), "Running() is true after Wait returned")
